@@ -5,20 +5,22 @@
 
    Observed objects: [h_dump] is the reflection dump of the object after Read, slots by thrift id in
    Go declaration order; objects of code generated with keep_unknown_fields have a leading pseudo-slot
-   (unk_id, VBool c), c = what the public method CarryingUnknownFields() returned.  The private buffer
-   is never observed directly: its content shows in the re-written bytes.
+   (unk_id, VBool c), c = what the public method CarryingUnknownFields() returned; every struct node has
+   the pseudo-slot (isset_id, VStruct [(field id, VBool b) ...]), b = what IsSet<Field>() returned on that
+   very object.  The private buffer is never observed directly: its content shows in the re-written bytes.
 
    [mismatches] returns (case index, code):
      1  model and implementation disagree                                         (correspondence)
      8  the case is outside what the harness may produce (pair is not an extension, ill-typed value,
         container header disagreeing with the schema)                             (correspondence)
      2  code of the OLD version failed to read what code of the NEW version wrote          (oracle)
-     3  a field common to both versions did not keep its value when old read new           (oracle)
+     3  a field common to both versions did not keep its value (or its IsSet answer) when old
+        read new, at any nesting position                                                   (oracle)
      4  with keep_unknown_fields: the bytes at the end of the chain do not decode, under the
         NEW schema, to the original value                                                   (oracle)
      5  CarryingUnknownFields() is not "the input had a field this version does not know"   (oracle)
      6  code of the NEW version failed to read what OLD code wrote, or an added field did
-        not take its default                                                                (oracle)
+        not take its default (value and IsSet answer), at any nesting position              (oracle)
      7  old code generated with keep_unknown_fields refused to re-write what it had read    (oracle) *)
 From Coq Require Import List ZArith Bool NArith Lia.
 From Verif Require Import Base.Bytes Base.BE Wire.TType Wire.WVal Wire.Codec Wire.Schema Wire.Value Wire.Std
@@ -56,6 +58,48 @@ Fixpoint obs_view (x : value) : value :=
   | _ => x
   end.
 
+(* pseudo-slot holding what the public IsSet<Field>() methods of the object answered *)
+Definition isset_id : Z := 32769.
+
+(* the model's prediction of that pseudo-slot, at every struct node: (field id, isset f slot) for the
+   fields that have the method, declaration order; it follows the carrying pseudo-slot when there is one *)
+Fixpoint isset_view (e : env) (t : ty) (x : value) {struct x} : value :=
+  match x with
+  | VList l => match t with TList a | TSet a => VList (map (isset_view e a) l) | _ => x end
+  | VMap kvs => match t with
+                | TMap a b => VMap (map (fun kv => (isset_view e a (fst kv), isset_view e b (snd kv))) kvs)
+                | _ => x end
+  | VStruct fs =>
+      match t with
+      | TRef n =>
+        match find_struct e n with
+        | Some s =>
+            let fs' := map (fun p => match find_field (fst p) (s_fields s) with
+                                     | Some f => (fst p, isset_view e (f_ty f) (snd p))
+                                     | None => p end) fs in
+            let is := cat_somes (map (fun p => match find_field (fst p) (s_fields s) with
+                                               | Some f => if supports_isset f then Some (fst p, VBool (isset f (snd p))) else None
+                                               | None => None end) fs) in
+            VStruct (filter (fun p => fst p =? unk_id) fs' ++ [(isset_id, VStruct is)] ++
+                     filter (fun p => negb (fst p =? unk_id)) fs')
+        | None => x end
+      | _ => x end
+  | VSome y => VSome (isset_view e t y)
+  | _ => x
+  end.
+
+(* forgetting pseudo-slots of an observed dump: all of them / only the carrying flags *)
+Fixpoint strip_ids (drop : Z -> bool) (v : value) : value :=
+  match v with
+  | VList l => VList (map (strip_ids drop) l)
+  | VMap kvs => VMap (map (fun kv => (strip_ids drop (fst kv), strip_ids drop (snd kv))) kvs)
+  | VStruct fs => VStruct (filter (fun p => negb (drop (fst p))) (map (fun p => (fst p, strip_ids drop (snd p))) fs))
+  | VSome x => VSome (strip_ids drop x)
+  | _ => v
+  end.
+Definition strip_obs : value -> value := strip_ids (fun i => (i =? unk_id) || (i =? isset_id)).
+Definition strip_unk : value -> value := strip_ids (fun i => i =? unk_id).
+
 Fixpoint decode_all (inputs : list bytes) : option (list wval) :=
   match inputs with
   | [] => Some []
@@ -69,10 +113,10 @@ Fixpoint decode_all (inputs : list bytes) : option (list wval) :=
 Definition hop_model (e : env) (s : sschema) (keep : bool) (ws : list wval) : kres (value * kres wval) :=
   if keep then
     kbind (kfoldM (fun x w => from_wire_keep e s x w) ws (new_struct_keep s))
-          (fun x => KOk (obs_view x, to_wire_keep e s x))
+          (fun x => KOk (obs_view (isset_view e (TRef (s_name s)) x), to_wire_keep e s x))
   else
     kbind (lift (foldM (fun x w => from_wire e s x w) ws (new_struct e s)))
-          (fun x => KOk (x, lift (to_wire e s x))).
+          (fun x => KOk (isset_view e (TRef (s_name s)) x, lift (to_wire e s x))).
 
 Definition bytes_match (w : wval) (obytes : bytes) : bool :=
   match dec_struct obytes with
@@ -149,7 +193,7 @@ Fixpoint chain_checks (eo en : env) (sname : bytes) (input : bytes) (hs : list h
                | OOk => []
                | _ => (* a refusal is legitimate only when plain old code could not write the known part either
                          (set elements that are equal after the read) *)
-                      match to_wire e s (strip (h_dump h)) with
+                      match to_wire e s (strip_obs (h_dump h)) with
                       | Err ESetDup => []
                       | _ => [7%N] end
                end
@@ -176,7 +220,7 @@ Definition check (eo en : env) (c : case) : list N :=
                      (match h_side h1 with
                       | SOld =>
                           match h_err h1 with
-                          | OOk => if veq_mod (strip (h_dump h1)) (adapt_struct eo so (norm_struct en sn v)) then [] else [3%N]
+                          | OOk => if veq_mod (strip_unk (h_dump h1)) (isset_view eo (TRef sname) (adapt_struct eo so (norm_struct en sn v))) then [] else [3%N]
                           | _ => [2%N] end
                       | SNew => [] end) ++
                      (* the domain of C09_keep_roundtrip / C09_chain: see Props/C09.v *)
@@ -193,7 +237,7 @@ Definition check (eo en : env) (c : case) : list N :=
                      (match h_side h1 with
                       | SNew =>
                           match h_err h1 with
-                          | OOk => if veq_mod (strip (h_dump h1)) (adapt_struct en sn (norm_struct eo so v)) then [] else [6%N]
+                          | OOk => if veq_mod (strip_unk (h_dump h1)) (isset_view en (TRef sname) (adapt_struct en sn (norm_struct eo so v))) then [] else [6%N]
                           | _ => [6%N] end
                       | SOld => [] end)
                  | _, [] => []
